@@ -13,13 +13,22 @@ import (
 	"pgregory.net/rapid"
 )
 
-const c16Rule = "random tree of 1-24 blocks with drawn primary/secondary marks and arrival times from a 1-3 value set, " +
+const c16Rule = "random tree of 1-24 blocks with drawn primary/secondary marks and arrival times from a 1-3 value set (value 0 is the zero time.Time, each in UTC/fixed-zone/local representation), " +
 	"added to two block trees in two independent random parent-first orders (same arrival times), optionally with a Prune " +
 	"in the middle; BestBlockHash is compared with the model (leaf maximising primary count after the root, then number, " +
 	"then earlier arrival, then lower hash) after every insertion of order A and at the sync points for order B; " +
 	"non-trivial = at the end >=2 leaves tie on the maximal primary count; distinct by (marks, arrivals, both orders)"
 
-func c16Time(a int64) time.Time { return time.Unix(1_700_000_000+a, 0) }
+// c16Time maps the abstract arrival a to an instant. Arrival 0 is the zero
+// time.Time (the earliest instant there is, and what a caller that does not
+// track arrivals hands over); it must order before every other arrival and
+// tie with itself like any other instant.
+func c16Time(a int64) time.Time {
+	if a == 0 {
+		return time.Time{}
+	}
+	return time.Unix(1_700_000_000+a, 0)
+}
 
 // c16TimeRep returns the arrival instant a in one of three representations
 // (UTC, a fixed +01:00 zone, the local zone), chosen per block: blocks that
